@@ -282,12 +282,12 @@ pub fn run(ctx: &Ctx) {
         c *= TOKENS.len() as u64;
     }
     enumerate_idx(ctx, "exh-tokens", nt * 3, true, |i| Raw { bytes: token_string(i, k) }, |c, o| judge_bytes(&c.bytes, o));
-    explore(ctx, "mutated", ctx.tier.pick(200_000, 4_000_000), mutated_strategy, |c: &Mutated, o| {
+    explore(ctx, "mutated", ctx.tier.pick(600_000, 10_000_000), mutated_strategy, |c: &Mutated, o| {
         let bytes = apply_muts(&refcodec::encode(&c.base), &c.muts);
         o.class_if(!c.muts.is_empty(), "mutated");
         judge_bytes(&bytes, o)
     });
-    explore(ctx, "random", ctx.tier.pick(100_000, 2_000_000), raw_strategy, |c: &Raw, o| judge_bytes(&c.bytes, o));
+    explore(ctx, "random", ctx.tier.pick(300_000, 5_000_000), raw_strategy, |c: &Raw, o| judge_bytes(&c.bytes, o));
 }
 
 pub fn replay(ctx: &Ctx, part: &str, case: &Value) -> bool {
